@@ -38,8 +38,10 @@ def build(am, uc, d):
         props['charge'] = A([0.5, -0.5, 0.25, -0.25], 'e')
     if 'w' in d['props']:
         props['w'] = np.arange(8.0).reshape(4, 2) - 3
+        props['w1'] = (np.arange(4.0).reshape(4, 1) - 1.5) * 0.25          # a length-1 trailing axis is a shape too
     if 't' in d['props']:
         props['t'] = (np.arange(16.0).reshape(4, 2, 2) - 5) * 0.5
+        props['t1'] = (np.arange(4.0).reshape(4, 1, 1) + 2) * 0.5
     if d.get('m_id'):
         props['m_id'] = np.array([7, 7, 9, 9])
     atoms = am.Atoms(atype=atype, pos=A(rel @ V + o, 'angstrom'), **props)
@@ -59,12 +61,12 @@ def do_dump(s, c):
         text, info = s.dump('atom_data', atom_style=o['atom_style'], units=o['units'], float_format=o['ff'], safecopy=True)
         return text, {'units': o['units'], 'atom_style': o['atom_style']}
     if fmt == 'atom_dump':
-        names = ['atom_id', 'atype', 'spos' if o['scaled'] else 'pos'] + [p for p in ('velocity', 'charge', 'w', 't') if p in s.atoms.prop()]
+        names = ['atom_id', 'atype', 'spos' if o['scaled'] else 'pos'] + [p for p in ('velocity', 'charge', 'w', 'w1', 't', 't1') if p in s.atoms.prop()]
         sys2 = s
         text, pinfo = sys2.dump('atom_dump', lammps_units=o['units'], prop_name=names, float_format=o['ff'], return_prop_info=True)
         return text, {'lammps_units': o['units'], 'prop_info': pinfo}
     if fmt == 'table':
-        names = ['atype', 'pos'] + [p for p in ('velocity', 'charge', 'w', 't') if p in s.atoms.prop()]
+        names = ['atype', 'pos'] + [p for p in ('velocity', 'charge', 'w', 'w1', 't', 't1') if p in s.atoms.prop()]
         units = [None, 'scaled' if o['scaled'] else 'angstrom'] + [{'velocity': 'angstrom/ps', 'charge': 'e'}.get(p) for p in names[2:]]
         pin = [{'prop_name': n, 'unit': u, 'shape': tuple(s.atoms.view[n].shape[1:])} for n, u in zip(names, units)]
         if o['withid']:
@@ -206,7 +208,8 @@ def compare(uc, s, s2, c, tol):
         return 'periodic flags changed'
     if car['symbols'] and None not in s.symbols and tuple(s2.symbols) != tuple(s.symbols):
         return 'symbols changed (%s -> %s)' % (s.symbols, s2.symbols)
-    for p in list(e['props']) + (['m_id'] if c['opts'].get('atom_style') == 'full' else []):
+    carried = list(e['props']) + [x + '1' for x in ('w', 't') if x in e['props']]       # w1 / t1: the length-1-axis companions of w / t
+    for p in carried + (['m_id'] if c['opts'].get('atom_style') == 'full' else []):
         if p not in s2.atoms.prop():
             return 'property %s not loaded' % p
         a, b = np.asarray(s.atoms.view[p])[order], np.asarray(s2.atoms.view[p])
